@@ -55,6 +55,16 @@ def main():
     tenv = {"CARGO_TARGET_DIR": os.path.join(base, "target")}
     res = {"seed": os.path.basename(seed), "verif_commit": res_commit}
     t0 = time.time()
+    prev = None
+    if os.environ.get("PAR_REUSE_CONFIRM") and os.path.exists(os.path.join(seed, "eval.json")):
+        pj = json.load(open(os.path.join(seed, "eval.json")))
+        if "suite_with_patch" in pj and "demo_fails_with_patch" in pj:
+            prev = pj
+    if prev is not None:
+        rc, out = sh("git apply %s" % patch, cwd=repo)
+        for k in ("demo_passes_without_patch", "demo_fails_with_patch", "suite_with_patch"):
+            res[k] = prev[k]
+        return finish(res, props, verif, repo, seed)
     sh("cp %s sylvia/tests/seed_demo.rs" % demo, cwd=repo)
     rc0, out0 = sh("cargo test -p sylvia --offline --features mt --test seed_demo 2>&1 | tail -25", cwd=repo, env=tenv)
     res["demo_passes_without_patch"] = "test result: ok" in out0 and "FAILED" not in out0
@@ -75,6 +85,10 @@ def main():
         res["demo_out_without"] = out0[-1200:]
     if not res["demo_fails_with_patch"]:
         res["demo_out_with"] = out1[-1200:]
+    return finish(res, props, verif, repo, seed)
+
+
+def finish(res, props, verif, repo, seed):
     if not props:
         props = [c["property_id"] for c in json.load(open("/verif/MANIFEST.json"))["checks"]]
     verdicts = {}
